@@ -782,9 +782,15 @@ fn explore_attr(code: u8, flags: u8, val: &[u8]) -> String {
         Out::Ok(x) => x,
         _ => return x_fail("to-api-panics"),
     };
+    if std::env::var("VERIF_C17_DEBUG").is_ok() {
+        eprintln!("explore attr {:?}\n  api {:?}", a, api);
+    }
     match guard_res(move || convert::attr_from_api(api)) {
         Out::Ok(b) => {
             if b != a {
+                if std::env::var("VERIF_C17_DEBUG").is_ok() {
+                    eprintln!("  back {:?}", b);
+                }
                 if b.code() == a.code() && b.binary() == a.binary() && b.value() == a.value() {
                     return x_fail("roundtrip-flags-differ");
                 }
@@ -813,9 +819,15 @@ fn explore_nlri(afi: u16, safi: u8, bytes: &[u8]) -> String {
             Out::Ok(x) => x,
             _ => return x_fail("to-api-panics"),
         };
+        if std::env::var("VERIF_C17_DEBUG").is_ok() {
+            eprintln!("explore nlri {:?}\n  api {:?}", n, api);
+        }
         match guard_res(move || convert::net_from_api(api, family)) {
             Out::Ok(b) => {
                 if b != n {
+                    if std::env::var("VERIF_C17_DEBUG").is_ok() {
+                        eprintln!("  back {:?}", b);
+                    }
                     return x_fail("roundtrip-value-differs");
                 }
             }
